@@ -190,7 +190,11 @@ func (v *Voucher) OwnerPublicKey() (crypto.PublicKey, error) {
 	if len(v.Entries) == 0 {
 		return v.Header.Val.ManufacturerKey.Public()
 	}
-	return v.Entries[len(v.Entries)-1].Payload.Val.PublicKey.Public()
+	lastEntry := v.Entries[len(v.Entries)-1]
+	if lastEntry.Payload == nil {
+		return nil, errors.New("last voucher entry has no payload")
+	}
+	return lastEntry.Payload.Val.PublicKey.Public()
 }
 
 // VerifyHeader checks that the OVHeader was not modified by comparing the HMAC
@@ -227,8 +231,19 @@ func (v *Voucher) VerifyCertChainHash() error {
 	}
 
 	cchash := v.Header.Val.CertChainHash
-	digest := cchash.Algorithm.HashFunc().New()
+	var digest hash.Hash
+	switch cchash.Algorithm {
+	case protocol.Sha256Hash, protocol.HmacSha256Hash:
+		digest = sha256.New()
+	case protocol.Sha384Hash, protocol.HmacSha384Hash:
+		digest = sha512.New384()
+	default:
+		return fmt.Errorf("unsupported hash algorithm for device cert chain hash: %d", int64(cchash.Algorithm))
+	}
 	for _, cert := range *v.CertChain {
+		if cert == nil {
+			return errors.New("device cert chain contains a null certificate")
+		}
 		if _, err := digest.Write(cert.Raw); err != nil {
 			return fmt.Errorf("error computing hash: %w", err)
 		}
@@ -290,6 +305,13 @@ func (v *Voucher) VerifyEntries() error {
 	// Voucher may have never been extended since manufacturing
 	if len(v.Entries) == 0 {
 		return nil
+	}
+
+	// Every entry must carry its payload
+	for i, entry := range v.Entries {
+		if entry.Payload == nil {
+			return fmt.Errorf("voucher entry %d has no payload", i)
+		}
 	}
 
 	// Header info is the concatenation of GUID and DeviceInfo
@@ -484,7 +506,23 @@ func ExtendVoucher[T protocol.PublicKeyOrChain](v *Voucher, owner crypto.Signer,
 		return nil, fmt.Errorf("error marshaling next owner public key: %w", err)
 	}
 
+	// The next owner key must also be of the manufacturer key's type and size
+	nextOwnerKey, err := nextOwnerPublicKey.Public()
+	if err != nil {
+		return nil, fmt.Errorf("error parsing next owner public key: %w", err)
+	}
+	mfgKey, err := v.Header.Val.ManufacturerKey.Public()
+	if err != nil {
+		return nil, fmt.Errorf("error parsing manufacturer key from header: %w", err)
+	}
+	if !sameKeyTypeAndSize(mfgKey, nextOwnerKey) {
+		return nil, fmt.Errorf("next owner key for voucher extension did not match the type and size/curve of the manufacturer key")
+	}
+
 	// Select the appropriate hash algorithm
+	if v.CertChain == nil || len(*v.CertChain) == 0 || (*v.CertChain)[0] == nil {
+		return nil, errors.New("voucher has no device certificate chain")
+	}
 	devicePubKey := (*v.CertChain)[0].PublicKey
 	alg, err := hashAlgFor(devicePubKey, ownerPubKey)
 	if err != nil {
@@ -534,6 +572,19 @@ func ExtendVoucher[T protocol.PublicKeyOrChain](v *Voucher, owner crypto.Signer,
 // 3.3.2) have matching strengths between device and owner attestation keys and
 // therefore the RSA key size should match the device public key or should be
 // 2048 for secp256r1 and 3072 for secp384r1.
+func sameKeyTypeAndSize(a, b crypto.PublicKey) bool {
+	switch a := a.(type) {
+	case *ecdsa.PublicKey:
+		b, ok := b.(*ecdsa.PublicKey)
+		return ok && a.Curve == b.Curve
+	case *rsa.PublicKey:
+		b, ok := b.(*rsa.PublicKey)
+		return ok && a.Size() == b.Size()
+	default:
+		return false
+	}
+}
+
 func hashAlgFor(devicePubKey, ownerPubKey crypto.PublicKey) (protocol.HashAlg, error) {
 	deviceSize, err := hashSizeForPubKey(devicePubKey)
 	if err != nil {
